@@ -55,6 +55,7 @@ func init() {
 			{Name: "stream-send-sizes", Mode: "enum", Reset: kit.ResetGlobals, Body: sendSizes},
 			{Name: "stream-recv-sizes", Mode: "enum", Reset: kit.ResetGlobals, Body: recvSizes},
 			{Name: "stream-limit-changed-after-listen", Mode: "enum", Reset: kit.ResetGlobals, Body: limitAfterListen, NeedCounters: []string{"delivered-at-new-limit"}},
+			{Name: "stream-ends-inside-the-frame-after-a-complete-message", Mode: "enum", Reset: kit.ResetGlobals, Body: truncatedAfterComplete, NeedCounters: []string{"ended-right-after-length-prefix", "ended-inside-payload"}},
 			{Name: "stream-write-fails-then-retransmission", Mode: "enum", Reset: kit.ResetGlobals, Body: writeFailsThenRetransmit, NeedCounters: []string{"retransmitted-intact"}},
 		}
 	})
@@ -423,6 +424,56 @@ func frameTruncated() {
 	}
 	kit.Observe("%s %s cut=%d end=%d", scheme, k.Name, cut, end)
 	kit.Must("Close", func() { _ = v.x.S.Close() })
+}
+
+// truncatedAfterComplete: one connection delivers a complete message and then a second frame of
+// which only the first cut bytes arrive before the stream ends (orderly end of stream or reset);
+// cut ranges over every position, among them "right after the length prefix".  The application
+// gets the first message exactly once and nothing else - in particular not the first message a
+// second time out of a reused receive buffer, and no message made of bytes that never arrived.
+func truncatedAfterComplete() {
+	pickScheme()
+	k := kinds.ByName([]string{"pull", "pair", "sub"}[kit.ChooseFree(3)])
+	first := []byte("first-message-of-24bytes")
+	second := []byte("second-message-of-24byte")
+	f := frame(second)
+	cut := kit.ChooseFree(len(f))
+	end := kit.ChooseFree(2)
+	v := open(k, -1)
+	h := v.goodPeer("truncating")
+	h.Feed(frame(first))
+	v.x.PrepRecv()
+	got, err := v.x.Recv()
+	if err != nil || got != string(first) {
+		kit.Failf("setup", "%s: first message: %q %v", k.Name, got, err)
+	}
+	h.Feed(f[:cut])
+	if end == 0 {
+		h.EOF()
+	} else {
+		h.Reset()
+	}
+	c := kit.Start("Recv", func() (interface{}, error) { return v.x.Recv() })
+	kit.Quiesce()
+	if c.Done() && c.Err == nil {
+		sig := "message-never-sent-delivered"
+		if c.Val.(string) == string(first) {
+			sig = "message-delivered-twice"
+		}
+		kit.Failf(sig, "%s/%s: after one complete message, %d of %d bytes of the next frame arrived before the stream ended (%s) and Recv returned %q",
+			scheme, k.Name, cut, len(f), []string{"end of stream", "reset"}[end], c.Val)
+	}
+	if cut == prefixLen() {
+		kit.Count("ended-right-after-length-prefix")
+	} else if cut > prefixLen() {
+		kit.Count("ended-inside-payload")
+	}
+	kit.Observe("%s %s cut=%d end=%d", scheme, k.Name, cut, end)
+	kit.Must("Close", func() { _ = v.x.S.Close() })
+	kit.Quiesce()
+	if c.Done() && c.Err == nil {
+		kit.Failf("message-never-sent-delivered", "%s/%s: Recv returned %q at Close", scheme, k.Name, c.Val)
+	}
 }
 
 // reference says what the application of kind k may see for an inbound transport message b.
